@@ -39,7 +39,10 @@ StepReq(cfg, shift, table, names, r) ==
   ELSE
   LET h == hooks[1]
       dest == Dest(r.src, cfg.p4, cfg.p6)
-      cat == Category(RcodeOf(r.direct))                 \* the category of the response this request produces
+      \* the category of the response this request produces: by its EXTENDED rcode (BADVERS is an error, not NOERROR)
+      dm == DecodeMessage(r.direct)
+      dopt == IF dm.ok THEN SelectSeq(dm.ar, LAMBDA x : x.type = 41) ELSE <<>>
+      cat == Category(RcodeOf(r.direct) + (IF dopt # <<>> THEN (dopt[1].ttlhi \div 256) * 16 ELSE 0))
       rate == RateFor(cfg, cat)
       \* harness clock + accumulated shift, as (seconds, microseconds); shift = <<seconds, microseconds>>
       s0 == shift[1] + (r.t0 + shift[2]) \div 1000000   u0 == (r.t0 + shift[2]) % 1000000
@@ -73,8 +76,10 @@ StepReq(cfg, shift, table, names, r) ==
                        /\ (cfg.slip = 0 => h.action = "drop") /\ (cfg.slip = 1 => h.action = "slip")
                        /\ (h.action = "drop" => r.out = "none")
                        /\ (h.action = "slip" => r.out = "resp" /\ SlipShape(r.resp))
+     \* the table is only advanced on an accepted step (after a rejected one the rest of the session is skipped; a
+     \* logged refill far outside the clock window must not be added to the times: 32-bit integers)
      IN [bad |-> IF ok THEN {} ELSE {"C26"},
-         table |-> Upd(table, h.idx, [old EXCEPT !.count = b.count, !.ls0 = @ + secs, !.ls1 = @ + secs]),
+         table |-> IF ok THEN Upd(table, h.idx, [old EXCEPT !.count = b.count, !.ls0 = @ + secs, !.ls1 = @ + secs]) ELSE table,
          names |-> names2]
 
 \* ---- C28: the events of one burst, ordered by sequence number, must chain on the one bucket
